@@ -459,3 +459,24 @@ func numTS(b []byte, resumeOffset int, state ConsumeNumberState) int {
 //@ loop 3 invariant 2 <= n && n <= len(b)
 //@ loop 3 invariant numExact(b, n, nExp, numTP(b, old(resumeOffset), old(state)), numTS(b, old(resumeOffset), old(state)))
 //@ loop 3 decreases len(b) - n
+
+// ---------------------------------------------------------------- wrappers
+
+//@ func ConsumeString
+//@ property C01 C03 C08 C20
+//@ requires flags != nil
+//@ modifies *flags
+//@ ensures empty: len(b) == 0 ==> n == 0 && isUnexpectedEOF(err)
+//@ ensures noquote: len(b) > 0 && b[0] != '"' ==> n == 0 && err != nil && !isUnexpectedEOF(err) && err != ErrInvalidUTF8
+//@ ensures ok-iff: len(b) > 0 && b[0] == '"' ==> (err == nil) == (strScanFrom(b, 1, validateUTF8, old(*flags)%2 == 1, old(*flags)/2%2 == 1).kind == uClose)
+//@ ensures ok-n: len(b) > 0 && b[0] == '"' && err == nil ==> n == strScanFrom(b, 1, validateUTF8, old(*flags)%2 == 1, old(*flags)/2%2 == 1).pos+1
+//@ ensures utf8-iff: len(b) > 0 && b[0] == '"' ==> (err == ErrInvalidUTF8) == (strScanFrom(b, 1, validateUTF8, old(*flags)%2 == 1, old(*flags)/2%2 == 1).kind == uBadUTF8)
+//@ ensures verbatim-exact: len(b) > 0 && b[0] == '"' && err == nil ==> (*flags%2 == 1) == strScanFrom(b, 1, validateUTF8, old(*flags)%2 == 1, old(*flags)/2%2 == 1).nonVerb
+//@ ensures canonical-exact: len(b) > 0 && b[0] == '"' && err == nil ==> (*flags/2%2 == 1) == strScanFrom(b, 1, validateUTF8, old(*flags)%2 == 1, old(*flags)/2%2 == 1).nonCanon
+
+//@ func ConsumeNumber
+//@ property C01 C10 C20
+//@ ensures ok-iff: (err == nil) == numAcc(numEndState(b, 0, nInit))
+//@ ensures ok-n: err == nil ==> n == numEndPos(b, 0, nInit)
+//@ ensures eof-iff: isUnexpectedEOF(err) == (!numAcc(numEndState(b, 0, nInit)) && numEndPos(b, 0, nInit) == len(b))
+//@ ensures bad-n: err != nil && !isUnexpectedEOF(err) ==> n == numEndPos(b, 0, nInit) && n < len(b)
